@@ -328,8 +328,47 @@ def dimnames():
     vx.prove("C05/dimnames/short", dn2[KEYS[2]] == "temperature" and dn2["observation.readout.times"] == "readout_time")
 
 
+def _replay_custom(oid, kwargs, model):
+    import pandas as pd
+
+    from pyxel.observation import ParameterValues
+    from pyxel.observation.misc import CustomMode
+
+    layout, rows = kwargs["layout"], kwargs["rows"]
+    ncol = sum(layout)
+    cells = [[100 * r + c for c in range(ncol)] for r in range(rows)]
+    skeys = iter([KEYS[0], KEYS[1], KEYS[2]])
+    vkeys = iter([KEYS[3], "pipeline.charge_generation.q.arguments.w"])
+    params = [ParameterValues(key=next(skeys), values="_") if n == 1 else ParameterValues(key=next(vkeys), values=["_"] * n) for n in layout]
+    mode = CustomMode(parameters=params, custom_data=pd.DataFrame(cells))
+    items = mode.get_parameters_item(processor=None)
+    bad = []
+    for r, it in enumerate(items):
+        col = 0
+        for k, n in enumerate(layout):
+            got = it.parameters.get(params[k].key)
+            want = cells[r][col] if n == 1 else cells[r][col : col + n]
+            if (list(got) if n > 1 else got) != want:
+                bad.append({"row": r, "parameter": params[k].key, "got": list(got) if n > 1 else got, "table_columns": want})
+            col += n
+    if len(items) != rows:
+        bad.append({"runs": len(items), "rows": rows})
+    if not bad and "parallel_array" in oid:
+        arr = mode.create_params(dim_names=_dim_names([p.key for p in params]))
+        for r, cell in enumerate(arr.values.tolist()):
+            col = 0
+            for k, n in enumerate(layout):
+                want = cells[r][col] if n == 1 else tuple(cells[r][col : col + n])
+                if cell[k] != want:
+                    bad.append({"row": r, "parallel_cell": cell[k], "want": want})
+                col += n
+    return bool(bad), {"mismatches": bad[:6]}
+
+
 def replay(oid, kwargs, model, data):
     fn = data["fn"]
+    if fn == "custom":
+        return _replay_custom(oid, kwargs, model)
     if fn == "sequential":
         import pandas as pd
 
